@@ -10,7 +10,7 @@ pub open spec fn fresh_chan(cap: int) -> Chan {
 }
 
 /// ghost: how many channels this run has created so far (the first is the ready channel, the second the done channel)
-pub uninterp spec fn chans_created(w: World) -> int;
+pub open spec fn chans_created(w: World) -> int { w.chans_created }
 
 pub mod mpsc {
     use super::*;
@@ -20,11 +20,9 @@ pub mod mpsc {
         requires buffer > 0,
         ensures
             r.0.chan() == chans_created(*old(w)) && r.1.chan() == chans_created(*old(w)),
-            chans_created(*final(w)) == chans_created(*old(w)) + 1,
-            chans_created(*old(w)) == READY ==> *final(w) == (World { ready: fresh_chan(buffer as int), ..*old(w) }),
-            chans_created(*old(w)) == DONE ==> *final(w) == (World { done: fresh_chan(buffer as int), ..*old(w) }),
-            chans_created(*old(w)) != READY && chans_created(*old(w)) != DONE ==> *final(w) == *old(w),
-            keeps(*old(w), *final(w)) && trace(*final(w)) == trace(*old(w)),
+            chans_created(*old(w)) == READY ==> *final(w) == (World { ready: fresh_chan(buffer as int), chans_created: old(w).chans_created + 1, ..*old(w) }),
+            chans_created(*old(w)) == DONE ==> *final(w) == (World { done: fresh_chan(buffer as int), chans_created: old(w).chans_created + 1, ..*old(w) }),
+            chans_created(*old(w)) != READY && chans_created(*old(w)) != DONE ==> *final(w) == (World { chans_created: old(w).chans_created + 1, ..*old(w) }),
     { unimplemented!() }
 }
 
